@@ -35,7 +35,7 @@ ASSUMPTIONS = [
 SHARDS = {"quick": 16, "thorough": 16}
 TIMEOUT = {"quick": 900, "thorough": 7200}
 MIN_CASES = {"quick": 2000, "thorough": 10000}
-REQUIRED_COUNTERS = ["advertisements_fed", "accepted_and_delivered", "replays_ignored", "forgeries_ignored", "bitflips_ignored", "state_advances_checked"]
+REQUIRED_COUNTERS = ["advertisements_fed", "accepted_and_delivered", "replays_ignored", "forgeries_ignored", "bitflips_ignored", "state_advances_checked", "rekey_replays_ignored"]
 
 DEVICE_ID = bytes.fromhex("aabbcc001122")
 OTHER_ID = bytes.fromhex("998877665544")
@@ -267,6 +267,41 @@ async def run_history(ctx, start, history, idx) -> None:
         await asyncio.sleep(0)
 
 
+async def run_rekey(ctx, start, idx) -> None:
+    """The accessory is paired AGAIN (same advertising id, NEW broadcast key) in the same process: advertisements that the old
+    key opened - replayed bit for bit while their state numbers are inside the new pairing's window - no longer authenticate."""
+    rng = ctx.grng("C18.rekey", start, idx)
+    old = World(rng, start)
+    replay = {"start": start, "rekey": True, "idx": idx}
+    ctx.case("rekey", start, idx, sample={"start_state_number": start, "history": "accepted under the old key, replayed to the re-paired accessory's new key"}, kind="rekey")
+    recorded = []
+    for klass in ("G1", "Gk", "G1"):
+        adv, payload, exp = build_ad(old, klass, rng)
+        before = old.pairing.description.state_num
+        old.feed(adv, refb.encrypted_notification(adv, payload))
+        if old.pairing.description.state_num != before:
+            recorded.append((adv, payload, exp))
+            old.L = old.pairing.description.state_num
+    if not recorded:
+        ctx.count("rekey_nothing_recorded")
+        return
+    new = World(rng, start)  # fresh random broadcast key, same DEVICE_ID, same starting state number
+    for adv, payload, exp in recorded:
+        before_state, before_log = new.pairing.description.state_num, len(new.log)
+        try:
+            new.feed(adv, refb.encrypted_notification(adv, payload))
+        except Exception as ex:  # noqa: BLE001
+            ctx.violation(f"scanner-callback-raises-{type(ex).__name__}", f"re-keyed replay from state {start}: {ex!r}", replay)
+            return
+        await asyncio.sleep(0)
+        if new.pairing.description.state_num != before_state or new.log[before_log:]:
+            ctx.violation("wrong-key-accepted-after-re-pairing", f"an advertisement sealed under the PREVIOUS broadcast key (nonce {exp['n']}) was accepted by the re-paired accessory's pairing: state {before_state}->{new.pairing.description.state_num}, listeners got {new.log[before_log:]}", replay)
+            return
+        ctx.count("rekey_replays_ignored")
+    # and the new key's own traffic still works
+    step(ctx, new, "G1", rng, replay)
+
+
 async def run_bitflips(ctx, start, idx) -> None:
     rng = ctx.grng("C18.bf", start, idx)
     w = World(rng, start)
@@ -295,6 +330,11 @@ def run(ctx) -> None:
                         await run_history(ctx, start, hist, idx)
         ctx.exhaustive_parts[f"all histories of length <= {depth} over 13 advertisement classes x 6 start state numbers"] = True
         for start in starts:
+            for k in range(ctx.pick(2, 20)):
+                idx += 1
+                if ctx.mine(idx):
+                    await run_rekey(ctx, start, k)
+        for start in starts:
             await run_bitflips(ctx, start, starts.index(start))
         ctx.exhaustive_parts["every single-bit flip of payload and tag (6 start state numbers)"] = True
         rng = ctx.rng("C18.random")
@@ -314,6 +354,8 @@ def replay(ctx, d) -> None:
         if d.get("bitflips"):
             ctx.shard, ctx.nshards = 0, 1
             await run_bitflips(ctx, d["start"], d["idx"])
+        elif d.get("rekey"):
+            await run_rekey(ctx, d["start"], d["idx"])
         else:
             idx = d["idx"]
             await run_history(ctx, d["start"], tuple(d["history"]), tuple(idx) if isinstance(idx, list) else idx)
